@@ -286,6 +286,23 @@ func checkC15(c *Check) {
 	// ---- R7 what Recovery itself calls does not panic again
 	c.Rule("R7", "shared with C13 (R2, R3)", "Recovery answers through ResponseWriter.WriteHeader: the before-functions run under the writer's once-guard (a hook that panicked is not run a second time by Recovery's own WriteHeader(500))", 4)
 	c.Share("C13", []string{"R2", "R3"}, 4)
+	// the attempt is consumed before the hooks run: a `!Written()` test alone (accepted by C13 for the single
+	// status line) lets Recovery's own WriteHeader(500) run a hook again that has just panicked
+	{
+		n, bad := 0, 0
+		for _, fn := range p.Funcs() {
+			for _, ci := range callsIn(fn, func(nm string, cm *ssa.CallCommon) bool { return strings.HasSuffix(nm, "responseWriter).callBefore") }) {
+				n++
+				if _, isOnce := onceLiteral(fn); !isOnce {
+					bad++
+					c.Bad(p.FuncKey(fn)+":hooks-once", p.Pos(ci.Pos()), "the before-functions are not run under a sync.Once: when one of them panics no status has been recorded yet, so Recovery's WriteHeader(500) runs it again inside the deferred function and the second panic escapes ServeHTTP")
+				}
+			}
+		}
+		if n > 0 && bad == 0 {
+			c.OK("flamego.responseWriter:hooks-once", "response_writer.go", "the before-functions run inside a sync.Once.Do literal: a panicking hook is not retried", n)
+		}
+	}
 	c.Rule("R6", "E8 prove-pass oracle", "every index/slice operation in Recovery's handler, its deferred literal and its helper closures is proven by the compiler or is x[i+1:] with i = Index/LastIndex(x, …) on the i >= 0 edge: a panic raised after recover() would escape ServeHTTP", 1)
 	{
 		fns := withLits(rec)
